@@ -92,9 +92,14 @@ def _track_consts(node, cenv):
             for x in ast.walk(t):
                 if isinstance(x, ast.Name):
                     cenv.pop(x.id, None)
-        if len(node.targets) == 1 and isinstance(node.targets[0], ast.Name) and isinstance(
-                node.value, ast.Constant) and isinstance(node.value.value, bool):
-            cenv[node.targets[0].id] = node.value.value
+        if len(node.targets) == 1 and isinstance(node.targets[0], ast.Name):
+            v = node.value
+            if isinstance(v, ast.Constant) and isinstance(v.value, bool):
+                cenv[node.targets[0].id] = v
+            elif isinstance(v, (ast.BoolOp, ast.UnaryOp, ast.Compare)) and any(
+                    isinstance(x, ast.Name) and x.id in cenv for x in ast.walk(v)):
+                # a flag combined from flags whose value on this path is known
+                cenv[node.targets[0].id] = _subst(v, cenv)
     elif isinstance(node, (ast.AugAssign, ast.AnnAssign)):
         if isinstance(node.target, ast.Name):
             cenv.pop(node.target.id, None)
@@ -106,7 +111,8 @@ class _Sub(ast.NodeTransformer):
 
     def visit_Name(self, n):
         if isinstance(n.ctx, ast.Load) and n.id in self.cenv:
-            return ast.copy_location(ast.Constant(value=self.cenv[n.id]), n)
+            import copy as _copy
+            return ast.copy_location(_copy.deepcopy(self.cenv[n.id]), n)
         return n
 
     def visit_Lambda(self, n):
@@ -158,11 +164,19 @@ def _pad(starts, alts):
     return [m] * len(alts)
 
 
+def quantified(q, vs, it, lit):
+    """canonical quantified literal; bound variables are renamed $1, $2 ..."""
+    inner = repr(lit)
+    for i, v in enumerate(vs):
+        inner = re.sub(r'(?<![\w#.$])%s(?![\w])' % re.escape(v), '$%d' % (i + 1), inner)
+    return Lit('%s %s in %s: %s' % (q, ','.join('$%d' % (i + 1) for i in range(len(vs))), it, inner), True)
+
+
 def _quantify(lits, start, vs, it, q):
     out = list(lits[:start])
     for l in lits[start:]:
         if any(_mentions(l.atom, v) for v in vs):
-            out.append(Lit('%s %s in %s: %r' % (q, ','.join(vs), it, l), True))
+            out.append(quantified(q, vs, it, l))
         else:
             out.append(l)
     return out
